@@ -174,5 +174,13 @@ EmitTime == LET tw == Ticks(c.sec, c.ns) IN
                            tsec |-> BytesBE(c.sec), tns |-> Trunc100(c.ns),
                            least |-> LeastV1(tw), greatest |-> GreatestV1(tw)])>>)
 
+\* several families in one TLC process (the start-up of a TLC process costs more than the cases):
+\* the case records of the families have different fields
+Has(f) == f \in DOMAIN c
+InitParse == InitSub \/ InitCanonSub \/ InitWide
+EmitParse == IF Has("n") THEN EmitSub ELSE IF Has("f") THEN EmitWide ELSE EmitCanonSub
+InitRest == InitIns \/ InitCanon \/ InitV1 \/ InitTime
+EmitRest == IF Has("ch") THEN EmitIns ELSE IF Has("i") THEN EmitCanon ELSE IF Has("clock") THEN EmitV1 ELSE EmitTime
+
 Next == UNCHANGED c
 =============================================================================
